@@ -13,17 +13,21 @@
 (* why C10 is a property of the callers and is checked on their traces     *)
 (* (JudgeStore.tla replays recorded events through these same actions).    *)
 (***************************************************************************)
-EXTENDS Integers, Sequences, FiniteSets
+EXTENDS Integers, Sequences, FiniteSets, TLC, Json
 
 CONSTANTS MaxVar,        \* variables mentioned by clauses range over 0..MaxVar
-          Discipline     \* TRUE: callers always insert with check=True
+          Discipline,    \* TRUE: callers always insert with check=True
+          Depth          \* export: print every behaviour with Depth calls (0 = no export)
 
-VARIABLES numvar, maxm, bad, lastfirst, lastact
-vars == <<numvar, maxm, bad, lastfirst, lastact>>
+VARIABLES numvar, maxm, bad, lastfirst, lastact, hist
+vars == <<numvar, maxm, bad, lastfirst, lastact, hist>>
 
 Max(a, b) == IF a >= b THEN a ELSE b
 
-Init == numvar = 0 /\ maxm = 0 /\ bad = 0 /\ lastfirst = 0 /\ lastact = "init"
+Init == numvar = 0 /\ maxm = 0 /\ bad = 0 /\ lastfirst = 0 /\ lastact = "init" /\ hist = <<>>
+
+\* history of calls with the counter expected after each (export only)
+Log(call) == hist' = IF Depth = 0 THEN hist ELSE Append(hist, call)
 
 \* one clause whose largest variable is mv (0 = empty clause); z = it contains a 0 / non-integer
 Insert(mv, z, checked) ==
@@ -32,20 +36,24 @@ Insert(mv, z, checked) ==
     /\ bad' = bad + (IF z THEN 1 ELSE 0)
     /\ numvar' = IF checked THEN Max(numvar, mv) ELSE numvar
     /\ lastact' = "insert" /\ UNCHANGED lastfirst
+    /\ Log([act |-> "insert", mv |-> mv, zero |-> z, checked |-> checked, len |-> 0, k |-> 0, nv |-> numvar'])
 
 NewGroup(len) ==
     /\ len > 0
     /\ lastfirst' = numvar + 1
     /\ numvar' = numvar + len
     /\ lastact' = "group" /\ UNCHANGED <<maxm, bad>>
+    /\ Log([act |-> "group", mv |-> 0, zero |-> FALSE, checked |-> FALSE, len |-> len, k |-> 0, nv |-> numvar'])
 
 Raise(k) ==
     /\ numvar' = Max(numvar, k)
     /\ lastact' = "raise" /\ UNCHANGED <<maxm, bad, lastfirst>>
+    /\ Log([act |-> "raise", mv |-> 0, zero |-> FALSE, checked |-> FALSE, len |-> 0, k |-> k, nv |-> numvar'])
 
-Next == \/ \E mv \in 0..MaxVar, z \in BOOLEAN, c \in BOOLEAN : (Discipline => c) /\ Insert(mv, z, c)
-        \/ \E len \in 1..2 : NewGroup(len)
-        \/ \E k \in 0..MaxVar : Raise(k)
+Next == /\ (Depth = 0 \/ Len(hist) < Depth)
+        /\ \/ \E mv \in 0..MaxVar, z \in BOOLEAN, c \in BOOLEAN : (Discipline => c) /\ Insert(mv, z, c)
+           \/ \E len \in 1..2 : NewGroup(len)
+           \/ \E k \in 0..MaxVar : Raise(k)
 
 Bounded == numvar <= MaxVar + 2 /\ bad <= 1
 Spec == Init /\ [][Next]_vars
@@ -55,4 +63,6 @@ InRange  == maxm <= numvar /\ bad = 0
 Monotone == [][numvar' >= numvar]_vars
 \* a new group never hands out an identifier that an earlier clause mentioned
 Fresh    == [][lastact' = "group" => lastfirst' > maxm]_vars
+ModelView == <<numvar, maxm, bad, lastfirst, lastact>>
+Emit == (Depth > 0 /\ Len(hist) = Depth) => PrintT(ToJson(hist))
 =============================================================================
